@@ -162,8 +162,9 @@ fn def(prop: &str, tier: u8) -> Option<Def> {
         },
         "C06" => Def {
             memcheck: mc,
-            parts: vec![("sync", fam_sync::total(prop, tier)), ("arc", arcs::total(prop, tier))],
-            clauses: vec!["missed_failure", "missed_deadlock", "missed_race", "missed_leak", "wrong_failure", "false_failure", "false_deadlock", "false_race", "false_leak", "loom_internal_panic", "process_died", "dirty_after_failure", "unexpected_branch_limit", "panic_state_leaked"],
+            // the thread-local / lazy-static programs (none of which can fail) count for the "and only then" half
+            parts: vec![("sync", fam_sync::total(prop, tier)), ("arc", arcs::total(prop, tier)), ("statics", fam_statics::total(tier).min(if tier == 0 { 800 } else { 4000 }))],
+            clauses: vec!["unexpected_panic", "missed_failure", "missed_deadlock", "missed_race", "missed_leak", "wrong_failure", "false_failure", "false_deadlock", "false_race", "false_leak", "loom_internal_panic", "process_died", "dirty_after_failure", "unexpected_branch_limit", "panic_state_leaked"],
             rule: "programs over all blocking primitives, SeqCst atomics and cells with injected user assertions (unconditional, or conditioned on the preceding try_lock/try_read/try_write/try_recv result so that the failing iteration is not the first): raised in any thread, while holding mutex / rwlock guards, while other threads are blocked in lock/recv/wait/park/join, before a spawned thread ever ran, with the objects behind std or loom::sync::Arc; pinned shapes of the property text. The reference machine decides which failures are reachable; loom::model must unwind with one of them (and return normally when none is), the worker process must survive, and a probe model run afterwards in the same process must behave exactly as in a fresh process. non-trivial = >= 2 threads with operations and >= 2 reference terminals or loom iterations",
             trusted: vec!["harness/src/sync.rs reference machine", "panic classifier (common.rs)", "interpreters"],
             assumptions: vec!["when several failure kinds are reachable any of them is accepted (loom stops at the first failing iteration)"],
